@@ -349,6 +349,35 @@ def sprint_mode_coq(d):
         coq_str(d["body"]), coq_str(d["fmt"]), ("(%d)" % d["prec"]) if d["prec"] < 0 else str(d["prec"]))
 
 
+SX_WRITER = re.compile(
+    r'case SX_Float ?: ?\{ ?char buf ?\[ ?MAX_FLOAT_SIZE ?\] ?; ?char ?\* ?c ?; ?'
+    r'DFloatSprint ?\( ?buf ?, ?sxiToFloat ?\( ?s ?\) ?\) ?; ?'
+    r'for ?\( ?c ?= ?buf ?; ?\* ?c ?; ?c ?\+\+ ?\) ?if ?\( ?isalpha ?\( ?\* ?c ?\) ?\) ?\{ ?\* ?c ?= ?s ?-> ?sxFloat ?\. ?marker ?; ?break ?; ?\} ?'
+    r'if ?\( ?! ?\* ?c ?\) ?\{ ?(.*?) ?\* ?c ?\+\+ ?= ?s ?-> ?sxFloat ?\. ?marker ?; ?\* ?c ?\+\+ ?= ?\'0\' ?; ?\* ?c ?= ?\'\\0\' ?; ?\} ?'
+    r'sxiIoBufPuts ?\( ?buf ?\) ?; ?break ?; ?\}')
+SX_PAD = re.compile(r"if ?\( ?c ?> ?buf ?&& ?c ?\[ ?-1 ?\] ?== ?'\.' ?\) ?\* ?c ?\+\+ ?= ?'0' ?;")
+
+
+def extract_sx_writer():
+    """sexpr.c sxiWrUnscanToken, case SX_Float -> (shape_ok, pads_trailing_point, markers)."""
+    sx = strip_comments(open(C.SRC + "/sexpr.c").read())
+    params, body = func_body(sx, "int sxiWrUnscanToken")
+    if body is None:
+        m0 = re.search(r"sxiWrUnscanToken\s*\([^)]*\)\s*\{", sx)
+        body = sx[m0.end():] if m0 else ""
+    m = SX_WRITER.search(norm_ws(body))
+    mk = re.search(r'"([A-Za-z]+)"\s*;\s*while\s*\(\s*\*\s*s\s*\)\s*sxiIoTable\s*\[\s*\*\s*s\s*\+\+\s*\]\s*\|=\s*sxiIoExptMarker', sx)
+    markers = mk.group(1) if mk else ""
+    if not m:
+        return False, False, markers
+    extra = m.group(1).strip()
+    if extra == "":
+        return True, False, markers
+    if SX_PAD.fullmatch(extra):
+        return True, True, markers
+    return False, False, markers
+
+
 def generate():
     """Text of coq/Gen/XFloatParams.v from the current tree."""
     d, order = probe_params()
@@ -388,6 +417,13 @@ def generate():
                                                                              modes["floatrep"]["prec_src"]))
     L.append("Definition sprint_default : sprint_mode := %s." % sprint_mode_coq(modes["default"]))
     L.append("Definition sprint_floatrep : sprint_mode := %s." % sprint_mode_coq(modes["floatrep"]))
+    ok, pad, markers = extract_sx_writer()
+    L.append("")
+    L.append("(* sexpr.c sxiWrUnscanToken, case SX_Float: first letter := marker; without a letter")
+    L.append("   [a '0' after a trailing point (5586a2c),] marker and '0' are appended *)")
+    L.append("Definition sx_writer_ok : bool := %s." % ("true" if ok else "false"))
+    L.append("Definition sx_pad_point : bool := %s." % ("true" if pad else "false"))
+    L.append("Definition sx_expt_markers : string := %s." % coq_str(markers))
     L += ["", "End XP.", ""]
     return "\n".join(L)
 
@@ -1249,6 +1285,9 @@ def check_sprint(rep, tier, stats):
     for b in single_patterns(rng, "quick")[::7]:          # singles widened exactly to double
         x = struct.unpack(">f", struct.pack(">I", b))[0]
         pats.append(struct.unpack(">Q", struct.pack(">d", x))[0])
+    for lo, hi in ((1e16, 1e17), (1e14, 1e15)):          # 17 / 15 integer digits and a bare point
+        for _ in range(200):
+            pats.append(struct.unpack(">Q", struct.pack(">d", rng.uniform(lo, hi)))[0])
     for _ in range(20000 if tier == "quick" else 200000):
         pats.append(rng.getrandbits(64))
     ops = ["dsp 0 %016x" % b for b in pats] + ["dsp 1 %016x" % b for b in pats[:20000]]
@@ -1318,10 +1357,18 @@ TEXT_DOUBLES = [("0.0", "zero"), ("4.9e-324", "minsub"), ("2.225073858507201e-30
                 ("2.2250738585072014e-308", "minnorm"), ("1.7976931348623157e308", "maxfinite"),
                 ("1.0000000000000002", "one+ulp"), ("0.9999999999999999", "one-ulp"),
                 ("0.30000000000000004", "17digits"), ("0.1", "17digits"), ("9007199254740993.0", "17digits"),
-                ("1.0e23", "17digits"), ("123456789.12345679", "17digits"), ("5.0e-324", "minsub")]
+                ("1.0e23", "17digits"), ("123456789.12345679", "17digits"), ("5.0e-324", "minsub"),
+                # [1e16, 1e17): "%#.17g" prints 17 integer digits and a bare point (5586a2c)
+                ("1.0e16", "int17"), ("16092042014752768.0", "int17"), ("99999999999999984.0", "int17"),
+                ("12345678901234568.0", "int17")]
 TEXT_SINGLES = [("0.0", "zero"), ("1.0e-45", "minsub"), ("1.1754942e-38", "maxsub"), ("1.17549435e-38", "minnorm"),
                 ("3.4028234e38", "maxfinite"), ("1.0000001", "one+ulp"), ("0.99999994", "one-ulp"),
-                ("0.1", "9digits"), ("16777217.0", "9digits"), ("0.3", "9digits"), ("1.00000005960464478", "9digits")]
+                ("0.1", "9digits"), ("16777217.0", "9digits"), ("0.3", "9digits"), ("1.00000005960464478", "9digits"),
+                ("1.0e16", "int17"), ("1.6092042e16", "int17"), ("9.9999998e16", "int17")]
+# -Wfloatrep prints 15 digits: [1e14, 1e15) gets 15 integer digits and a bare point; these
+# values are exact in 15 digits, so even the lossy mode must give their bits back
+TEXT_FLOATREP_DOUBLES = [("123456789012345.0", "int15"), ("100000000000000.0", "int15"), ("999999999999999.0", "int15")]
+TEXT_FLOATREP_SINGLES = [("1.0e14", "int15"), ("4.0e14", "int15")]
 
 
 def text_family(rng, tier):
@@ -1425,12 +1472,13 @@ def parse_text_consts(route, text):
 TEXT_ROUTES = ("interp", "exe", "fm", "lsp")
 
 
-def run_text_routes(src, routes=TEXT_ROUTES, opt="-Q3"):
+def run_text_routes(src, routes=TEXT_ROUTES, opt="-Q3", extra=()):
     """Compile `src` with the compiler built from the CURRENT tree and observe its float
     constants on each route.  -> {route: {'slots': {...}} | {'consts': [...]} | {'error': str}}"""
     consts = {k: int(v) for k, v in probe_params()[0].items() if re.fullmatch(r"-?\d+", v)}
     exe = C.build_compiler()
-    base = C.aldor_base_args(exe)
+    base0 = C.aldor_base_args(exe)
+    base = base0 + list(extra)
     env = C.aldor_env()
     top = C.scratch("c19txt")
     res = {}
@@ -1468,7 +1516,7 @@ def run_text_routes(src, routes=TEXT_ROUTES, opt="-Q3"):
                 res["fm"] = {"error": "no .fm written: " + (out + err)[-300:]}
             else:
                 os.remove(d + "/p.as")
-                rc2, out2, err2 = C.run(base + ["-ginterp", "-laldor", "p.fm"], cwd=d, env=env, timeout=300)
+                rc2, out2, err2 = C.run(base0 + ["-ginterp", "-laldor", "p.fm"], cwd=d, env=env, timeout=300)
                 sl = decode_slots(out2, consts)
                 res["fm"] = {"slots": sl, "rc": rc2, "log": (out2 + err2)[-400:], "consts": parse_text_consts("fm", fm), "text": fm}
                 if rc2 != 0 and not sl:
@@ -1593,6 +1641,32 @@ def e2e_text_routes(rep, tier, stats, only=None):
                     {"kind": "textroute", "route": route, "textonly": True, "class": cls, "expr": ex, "prec": "D",
                      "want": "%016x" % b, "token": pr[1], "source": mini, "cmd": "aldor -Q3 -Flsp -Ffm -Fc p.as"},
                     key="C19/text/%s/%s" % (route, cls))
+    # -Wfloatrep: the .fm written with 15 digits must still load, and values that are exact
+    # in 15 digits must keep their bits
+    fd = [(l, struct.unpack(">Q", struct.pack(">d", float(l)))[0], c) for l, c in TEXT_FLOATREP_DOUBLES]
+    fs = [(l, struct.unpack(">I", struct.pack(">f", float(l)))[0], c) for l, c in TEXT_FLOATREP_SINGLES]
+    fsrc = text_program(fd, fs)
+    try:
+        RF = run_text_routes(fsrc, routes=("fm",), extra=("-Wfloatrep",))
+    except C.BuildError:
+        RF = {}
+    r = RF.get("fm", {})
+    if "error" in r or not r.get("slots"):
+        rep.violation("text route fm under -Wfloatrep: the program with 15-integer-digit constants did not run: %s" % (
+            r.get("error") or r.get("log", "")[-200:]),
+            {"kind": "textroute", "route": "fm", "floatrep": True, "source": fsrc,
+             "cmd": "aldor -Q3 -Wfloatrep -Ffm=p.fm p.as ; aldor -ginterp -laldor p.fm"}, key="C19/text/fm/run:floatrep")
+    else:
+        for slot, (b, cls, ex) in sorted({**{("D", i): (b, c, e) for i, (e, b, c) in enumerate(fd)},
+                                          **{("S", i): (b, c, e) for i, (e, b, c) in enumerate(fs)}}.items()):
+            checked += 1
+            got = r["slots"].get(slot)
+            if got != b and ("fm:floatrep", cls) not in done:
+                done.add(("fm:floatrep", cls))
+                rep.violation("constant %s (%s, bits %x) is %s after -Wfloatrep .fm reload" % (ex, cls, b, "%x" % got if got is not None else "missing"),
+                              {"kind": "textroute", "route": "fm", "floatrep": True, "class": cls, "expr": ex, "source": fsrc,
+                               "cmd": "aldor -Q3 -Wfloatrep -Ffm=p.fm p.as ; aldor -ginterp -laldor p.fm"},
+                              key="C19/text/fm/%s:floatrep" % cls)
     stats["text_route_slots_checked"] = checked
     stats["text_constants_found_folded"] = folded
     stats["text_family"] = {"doubles": len(dd), "singles": len(ss)}
